@@ -98,31 +98,34 @@ def kObject : Bytes := [111, 98, 106, 101, 99, 116]
 def kType : Bytes := [116, 121, 112, 101]
 
 /-- `ParseCommit`. Header errors are detected lazily by the Go loop (an earlier semantic error
-    wins over a later malformed header), which `commitStream` reproduces. -/
-def commitStream : Nat → Bytes → List Bytes → Option Bytes → Res (List Bytes × Option Bytes)
-  | 0, _, ps, t => .ok (ps.reverse, t)
-  | fuel + 1, data, ps, t =>
+    wins over a later malformed header), which `commitStream` reproduces. `done`: some header other
+    than `tree`/`parent` has been seen — as in git itself, later headers with these names are extra
+    headers and are skipped (after the repair of F6; before it they were read as tree/parents). -/
+def commitStream : Nat → Bytes → Bool → List Bytes → Option Bytes → Res (List Bytes × Option Bytes)
+  | 0, _, _, ps, t => .ok (ps.reverse, t)
+  | fuel + 1, data, done, ps, t =>
     if data.isEmpty then .ok (ps.reverse, t) else
     match nextHeader data with
     | .err c => .err c
     | .panic c => .panic c
     | .ok (k, v, rest) =>
-      if k = kParent then
+      if done then commitStream fuel rest true ps t
+      else if k = kParent then
         match Go.newOID v with
         | none => .err "bad-parent"
-        | some o => commitStream fuel rest (o :: ps) t
+        | some o => commitStream fuel rest false (o :: ps) t
       else if k = kTree then
         match t with
         | some _ => .err "multiple-trees"
         | none =>
           match Go.newOID v with
           | none => .err "bad-tree"
-          | some o => commitStream fuel rest ps (some o)
-      else commitStream fuel rest ps t
+          | some o => commitStream fuel rest false ps (some o)
+      else commitStream fuel rest true ps t
 
 def parseCommit (data : Bytes) : Res Commit := do
   let block ← headerBlock data
-  let (ps, t) ← commitStream (block.length + 1) block [] none
+  let (ps, t) ← commitStream (block.length + 1) block false [] none
   match t with
   | none => .err "no-tree"
   | some tr => .ok ⟨clamp c32 data.length, ps, tr⟩
@@ -133,30 +136,31 @@ structure Tag where
   refType : Bytes
 deriving Repr, DecidableEq
 
-def tagStream : Nat → Bytes → Option Bytes → Option Bytes → Res (Option Bytes × Option Bytes)
-  | 0, _, o, t => .ok (o, t)
-  | fuel + 1, data, o, t =>
+def tagStream : Nat → Bytes → Bool → Option Bytes → Option Bytes → Res (Option Bytes × Option Bytes)
+  | 0, _, _, o, t => .ok (o, t)
+  | fuel + 1, data, done, o, t =>
     if data.isEmpty then .ok (o, t) else
     match nextHeader data with
     | .err c => .err c
     | .panic c => .panic c
     | .ok (k, v, rest) =>
-      if k = kObject then
+      if done then tagStream fuel rest true o t
+      else if k = kObject then
         match o with
         | some _ => .err "multiple-objects"
         | none =>
           match Go.newOID v with
           | none => .err "bad-object"
-          | some oid => tagStream fuel rest (some oid) t
+          | some oid => tagStream fuel rest false (some oid) t
       else if k = kType then
         match t with
         | some _ => .err "multiple-types"
-        | none => tagStream fuel rest o (some v)
-      else tagStream fuel rest o t
+        | none => tagStream fuel rest false o (some v)
+      else tagStream fuel rest true o t
 
 def parseTag (data : Bytes) : Res Tag := do
   let block ← headerBlock data
-  let (o, t) ← tagStream (block.length + 1) block none none
+  let (o, t) ← tagStream (block.length + 1) block false none none
   match o, t with
   | none, _ => .err "no-object"
   | some _, none => .err "no-type"
